@@ -75,6 +75,18 @@ def run_row(row, tmpdir):
         chk("text-file", lambda: jsonutils.reverse_iter_lines(f, blocksize=bs), True)
     except UnicodeDecodeError:
         pass
+    # the same content just written through the very file object handed over (opened for update, not flushed by the caller)
+    if bs in (1, 3):
+        fw = open(os.path.join(tmpdir, "w.bin"), "w+b")
+        fw.write(content)
+        chk("binary-file-just-written", lambda: jsonutils.reverse_iter_lines(fw, blocksize=bs), False)
+        try:
+            text_ = content.decode("utf-8")
+            ft = open(os.path.join(tmpdir, "w.txt"), "w+", encoding="utf-8", newline="")
+            ft.write(text_)
+            chk("text-file-just-written", lambda: jsonutils.reverse_iter_lines(ft, blocksize=bs), True)
+        except UnicodeDecodeError:
+            pass
     if bs == 1:
         chk("BytesIO/default-blocksize", lambda: jsonutils.reverse_iter_lines(io.BytesIO(content)), False)
     return bad
